@@ -224,10 +224,10 @@ func pickCluster(route *xdsresource.Route) (string, error) {
 		js, _ := route.MarshalJSON()
 		return "", fmt.Errorf("total weight of route is invalid (<= 0), route: %s", js)
 	}
-	targetWeight := uint32(fastrand.Int31n(int32(totalWeight)))
+	targetWeight := fastrand.Uint32n(totalWeight)
 	for _, wc := range wcs {
 		currWeight += wc.Weight
-		if currWeight >= targetWeight {
+		if currWeight > targetWeight {
 			return wc.Name, nil
 		}
 	}
